@@ -39,6 +39,8 @@ func init() {
 			c14Cleanup(r)
 			c14KindFollowsCommand(r)
 			c16SubscriberLoop(r)
+			c14UnsubscribeKindFilter(r)
+			c14SubscribersNotIdleClosed(r)
 		},
 	})
 }
